@@ -15,6 +15,15 @@ CHECKS = {
  "C03": dict(engine="E1 input-space enumerator", technique="bounded exhaustive enumeration of <=k token edits inside each victim body on the real parser; invariant on every damaged parse",
    text="For every seed file, every definition with a brace-delimited body and every sequence of <=k edits (insert/delete/replace over the 65-symbol non-opening alphabet, brace-balanced results only) the real parser must keep all other definitions (kind, name, text, order) and place every syntax error inside the damaged region.",
    note="k=1 on all seeds, k=2 on the two compact seed files (thorough). Seeds must be error-free (guarded).", ref="5/C03"),
+ "C06": dict(engine="E3 query sweeper", technique="bounded exhaustive enumeration of single-edit workspace variants x every identifier occurrence on the real Analysis API; relational invariant between references, goto_definition and highlight_related",
+   text="For every base workspace, every single-token edit variant and every pathological shape, at EVERY identifier occurrence the three real answers are compared: references listed = occurrences whose goto leads to the declaration, declaration's own name included, no duplicates, same set from every listed occurrence, highlight = references in the file.",
+   note="No hand-written expectations: the oracle is a relation between real answers. Workspaces: 3 bases (6 modules, 2 packages) + 30 pathological shapes; generated scoping programs are added by C05's generator.", ref="5/C06"),
+ "C10": dict(engine="E3 query sweeper in a supervised child process", technique="bounded exhaustive enumeration of workspace damage (every single token edit, truncation, item duplication/removal, import rewiring, pathological shapes) x nearby offsets x all 15 query kinds on the real Analysis API; crash containment by journaled isolated re-runs",
+   text="Every variant is built as the server builds workspaces and every query kind is called at every token boundary near the damage and at a stride elsewhere; a panic is caught per call, an abort/stack overflow/hang kills the supervised child and the journaled case is confirmed in isolation.",
+   note="Offsets away from the edit are strided (stated in evidence). Worker threads have 2 MiB stacks like the server's blocking pool.", ref="5/C10"),
+ "C20": dict(engine="E3 query sweeper + range monitor", technique="bounded exhaustive enumeration of workspace variants x offsets x all query kinds; invariant monitor on every reported range",
+   text="Every range in every answer of the C10 sweep (diagnostics, hover, goto focus/full, references, highlights, rename edits, prepare-rename, completion source ranges, semantic highlights) is checked: file belongs to the workspace, within bounds, on character boundaries, focus inside full, name-like ranges start and end on token boundaries.",
+   note="'Covers a whole token' is checked as: starts at a token start and ends at a token end (go-to-definition reports a whole field or spread pattern as focus).", ref="5/C20"),
  "C13": dict(engine="stateright BFS + in-process router", technique="explicit-state model checking (stateright BFS) with the real Vfs/convert code as transition function, reference LSP client as model; plus exhaustive two-change notifications through the real Server router",
    text="All client documents up to L symbols are states; every valid (start,end,replacement) edit and full-text change is a transition executed on the real Vfs::change_file_content via convert::from_range and compared with the reference client; the line-map freshness invariant checked in every state justifies deduplicating on client text. The per-change loop of on_did_change is covered by all ordered pairs of edits in one notification.",
    note="Bounds in evidence. Trusted: the reference client model (LSP 3.17 positions); the syntax-tree dump as observation of the server text.", ref="5/C13"),
